@@ -135,6 +135,32 @@ func checkC17(r *core.Run, p *core.Program) {
 						lhs = []ast.Expr{s.Key, s.Value}
 					}
 				}
+				// a package-level slice used as a destination buffer: append(G[:k], …) and append(G, …) with spare
+				// capacity, copy(G…, …) and Append*-style helpers write into the backing array every goroutine shares
+				if call, isCall := nd.(*ast.CallExpr); isCall && len(call.Args) >= 1 && !initLike[f.Obj] {
+					isDest := false
+					if id, ok := call.Fun.(*ast.Ident); ok {
+						if b, ok := info.Uses[id].(*types.Builtin); ok && (b.Name() == "append" || b.Name() == "copy") {
+							isDest = true
+						}
+					}
+					if cal := callee(info, call); cal != nil && strings.HasPrefix(cal.Name(), "Append") {
+						isDest = true
+					}
+					if isDest {
+						dst := stripParens(call.Args[0])
+						sliced := false
+						if se, ok := dst.(*ast.SliceExpr); ok {
+							dst, sliced = stripParens(se.X), true
+						}
+						if v, ok := objOf(info, dst).(*types.Var); ok && core.InModule(v) && v.Parent() == v.Pkg().Scope() {
+							if _, isSlice := v.Type().Underlying().(*types.Slice); isSlice && (sliced || packageSliceHasSpareCap(p, v)) {
+								r.Fail("C17.globals", f.Name()+"|writes into package buffer "+core.Rel(v.Pkg())+"."+v.Name(), call.Pos(),
+									"the package-level slice "+v.Name()+" is used as a destination buffer (`"+exprStr(call)+"`): the bytes are written into a backing array that every instance in every goroutine shares, so concurrent use of separate instances overwrites each other's data")
+							}
+						}
+					}
+				}
 				for _, l := range lhs {
 					if l == nil {
 						continue
@@ -529,4 +555,57 @@ func mentionsField(info *types.Info, e ast.Expr, fld *types.Var) bool {
 		return !found
 	})
 	return found
+}
+
+// packageSliceHasSpareCap: the package-level slice is created with make([]T, n, c) where c is not the constant n,
+// (or in a way the checker cannot see), so an append to it may write into its backing array instead of copying.
+func packageSliceHasSpareCap(p *core.Program, v *types.Var) bool {
+	for _, pkg := range p.Pkgs {
+		if pkg.Types != v.Pkg() {
+			continue
+		}
+		info := pkg.TypesInfo
+		for _, file := range pkg.Syntax {
+			for _, d := range file.Decls {
+				gd, ok := d.(*ast.GenDecl)
+				if !ok {
+					continue
+				}
+				for _, sp := range gd.Specs {
+					vs, ok := sp.(*ast.ValueSpec)
+					if !ok {
+						continue
+					}
+					for i, nm := range vs.Names {
+						if info.Defs[nm] != v {
+							continue
+						}
+						if i >= len(vs.Values) {
+							return false // nil slice: append allocates
+						}
+						switch init := stripParens(vs.Values[i]).(type) {
+						case *ast.CompositeLit:
+							return false // len == cap
+						case *ast.CallExpr:
+							if id, ok := init.Fun.(*ast.Ident); ok && id.Name == "make" {
+								if len(init.Args) == 2 {
+									return false
+								}
+								if len(init.Args) == 3 {
+									a, okA := constInt(info, init.Args[1])
+									b, okB := constInt(info, init.Args[2])
+									return !(okA && okB && a == b)
+								}
+							}
+							if tv, ok := info.Types[init.Fun]; ok && tv.IsType() {
+								return false // []byte("…") conversion: len == cap is not guaranteed by the spec but appends reallocate in practice… be conservative:
+							}
+						}
+						return true
+					}
+				}
+			}
+		}
+	}
+	return true
 }
